@@ -228,3 +228,52 @@ pub fn expect_free(name: &str, hyps: &[F], same: &F, x: Scalar, y: Scalar) {
         eng::note(&format!("{}: expected to be free, but the candidate is not a model", name));
     }
 }
+
+/// Decompose a term as an affine form  sum_i coeff_i * var_i + const  (None if it is not affine).
+pub fn affine(t: Tid) -> Option<(std::collections::BTreeMap<u32, U256>, U256)> {
+    use std::collections::BTreeMap;
+    fn go(t: Tid) -> Option<(BTreeMap<u32, U256>, U256)> {
+        match sx::node_of(t) {
+            Node::Const(c) => Some((BTreeMap::new(), c)),
+            Node::Var(v) => {
+                let mut m = BTreeMap::new();
+                m.insert(v, fq::ONE);
+                Some((m, fq::ZERO))
+            }
+            Node::Neg(x) => {
+                let (m, c) = go(x)?;
+                Some((m.into_iter().map(|(k, v)| (k, fq::neg(&v))).collect(), fq::neg(&c)))
+            }
+            Node::Add(x, y) | Node::Sub(x, y) => {
+                let sub = matches!(sx::node_of(t), Node::Sub(_, _));
+                let (mut m, c) = go(x)?;
+                let (m2, c2) = go(y)?;
+                for (k, v) in m2 {
+                    let v = if sub { fq::neg(&v) } else { v };
+                    let e = m.entry(k).or_insert(fq::ZERO);
+                    *e = fq::add(e, &v);
+                }
+                let c2 = if sub { fq::neg(&c2) } else { c2 };
+                Some((m, fq::add(&c, &c2)))
+            }
+            Node::Mul(x, y) => {
+                let (mx, cx) = go(x)?;
+                let (my, cy) = go(y)?;
+                if mx.is_empty() {
+                    Some((my.into_iter().map(|(k, v)| (k, fq::mul(&v, &cx))).collect(), fq::mul(&cx, &cy)))
+                } else if my.is_empty() {
+                    Some((mx.into_iter().map(|(k, v)| (k, fq::mul(&v, &cy))).collect(), fq::mul(&cx, &cy)))
+                } else {
+                    None
+                }
+            }
+        }
+    }
+    go(t)
+}
+pub fn var_of(s: Scalar) -> Option<u32> {
+    match sx::node_of(s.term()) {
+        Node::Var(v) => Some(v),
+        _ => None,
+    }
+}
